@@ -1657,7 +1657,12 @@ class NumberOrderedForm(Operator):
                 continue
 
             # Convert the coefficient to a polynomial and extract the generators
-            poly = sympy.poly(coeff)
+            try:
+                poly = sympy.poly(coeff)
+            except sympy.polys.polyerrors.GeneratorsNeeded:
+                # A purely numeric factor such as (1 + I) has no generators of its own;
+                # expanding distributes it over the rest of the coefficient.
+                poly = sympy.poly(sympy.expand(coeff))
             number_gens = tuple(
                 gen for gen in poly.gens if gen in self._number_operator_placeholders
             )
